@@ -1,4 +1,5 @@
 SPECIFICATION Spec
+CONSTANT MaxParked = 5
 CONSTANT NTok = 19
 CONSTANT Window = 18
 CONSTANT ReadyTokens = TRUE
